@@ -1547,14 +1547,26 @@ def main(tier, replay=None):
         h2, l2 = f_h2.result()
         hn = [f.result() for f in f_n]
         hcv, lcv = f_cv.result()
-    chk.proof_result(res, AREA)
+    inconclusive = []
+    if not res["ok"] and not res["forbidden"] and "[timeout after" in (res.get("log") or ""):
+        # our own tooling ran out of time (machine load): recorded, not a statement about the property
+        inconclusive.append("the Coq build of coq/C06 timed out; the proofs were not re-checked in this run")
+        chk.cov["obligations"] += len(res["theorems"])
+    else:
+        chk.proof_result(res, AREA)
     binaries = {1: h1, 2: h2, 3: hn[0][0], 4: hn[1][0], 5: hn[2][0], 6: hcv}
+    chk.cov["inconclusive_streams"] = inconclusive
     drv, l0 = vf.ocaml_build(AREA) if os.path.exists(os.path.join(vf.coq_dir(AREA), "ocaml", "model.ml")) else (None, "extraction did not run")
     if drv is None:
         chk.broke("extracted model driver does not build", l0)
     if any(b is None for b in binaries.values()):
-        chk.broke("implementation harness does not compile against /repo",
-                  "\n".join(x or "" for x in [l1, l2, hn[0][1], hn[1][1], hn[2][1], lcv])[-6000:])
+        logs = [l1, l2, hn[0][1], hn[1][1], hn[2][1], lcv]
+        failed = [(p, l or "") for (p, b), l in zip(sorted(binaries.items()), logs) if b is None]
+        if all("[timeout after" in l for p, l in failed):
+            inconclusive.append("compiling harness part(s) %s timed out (machine load); nothing was run" % [p for p, l in failed])
+            chk.notes.append("INCONCLUSIVE: " + inconclusive[-1])
+            return chk.finish()
+        chk.broke("implementation harness does not compile against /repo", "\n".join(l for p, l in failed)[-6000:])
         return chk.finish()
     source_constants(chk, binaries[3], drv)
     if thr is None:
@@ -1590,7 +1602,10 @@ def main(tier, replay=None):
     mout = {}
     if drv:
         rc, out, err = run_split(drv, [line(VARIANTS[cases[i][0]]["model"], cases[i][1], model_args(*cases[i])) for i in midx], ncpu, 3000)
-        if rc != 0:
+        if rc == 124 or "[timeout]" in (err or ""):
+            inconclusive.append("the extracted model driver timed out (machine load): correspondence stream not evaluated in this run")
+            chk.notes.append("INCONCLUSIVE: " + inconclusive[-1])
+        elif rc != 0:
             chk.broke("model driver failed", err)
         else:
             mout = dict(zip(midx, out))
